@@ -19,6 +19,32 @@ use crate::props::execs;
 
 pub struct C08;
 
+/// Names of the `extern fn` / `extern type` items of the core library (scanned from /repo).
+fn corelib_externs() -> &'static std::collections::HashSet<String> {
+    static CELL: std::sync::OnceLock<std::collections::HashSet<String>> = std::sync::OnceLock::new();
+    CELL.get_or_init(|| {
+        let mut out = std::collections::HashSet::new();
+        for (_, text) in crate::core::corpus::cairo_corpus(usize::MAX) {
+            for kw in ["extern fn ", "extern const fn ", "extern type "] {
+                for (i, _) in text.match_indices(kw) {
+                    let rest = &text[i + kw.len()..];
+                    let name: String = rest.chars().take_while(|c| c.is_ascii_alphanumeric() || *c == '_').collect();
+                    if !name.is_empty() {
+                        out.insert(name);
+                    }
+                }
+            }
+        }
+        out
+    })
+}
+
+/// True iff the source names a corelib extern item directly (as the e2e libfunc snippets do).
+pub fn names_corelib_extern(source: &str) -> bool {
+    let ex = corelib_externs();
+    rough_lex(source).iter().any(|t| t.kind == TokKind::Ident && ex.contains(&source[t.start..t.end]))
+}
+
 pub enum Front {
     Rejected(String),
     Program(Program),
@@ -317,7 +343,16 @@ impl Prop for C08 {
                             cc.stats().count(if mode == 1 { "mutants_rejected_by_front_end" } else { "unmutated_sources_rejected_by_front_end" });
                             Verdict::Pass
                         }
-                        Err((sig, what)) => Verdict::fail(sig, what, a),
+                        Err((sig, what)) => {
+                            // A *mutant* of a source that names corelib externs directly asks a libfunc
+                            // for an instantiation it does not support; the front end has no per-libfunc
+                            // argument validation, so the rejection comes late (one known root cause).
+                            // Panics elsewhere keep their own signature.
+                            if mode == 1 && !sig.starts_with("panic@") && !sig.starts_with("specialization-panic") && names_corelib_extern(&source) {
+                                return Verdict::fail("late-rejection:mutant-of-source-naming-a-corelib-extern", format!("[{sig}] {what}"), a);
+                            }
+                            Verdict::fail(sig, what, a)
+                        }
                     }
                 }
                 _ => {
@@ -410,7 +445,13 @@ impl Prop for C08 {
         }
         match part_a(&mut db, &name, source, settings, &cfg) {
             Ok(_) => Verdict::Pass,
-            Err((sig, what)) => Verdict::fail(sig, what, a.clone()),
+            Err((sig, what)) => {
+                let mutated = a["extra"]["mutations"].as_array().map(|m| !m.is_empty()).unwrap_or(false);
+                if mutated && !sig.starts_with("panic@") && !sig.starts_with("specialization-panic") && names_corelib_extern(source) {
+                    return Verdict::fail("late-rejection:mutant-of-source-naming-a-corelib-extern", format!("[{sig}] {what}"), a.clone());
+                }
+                Verdict::fail(sig, what, a.clone())
+            }
         }
     }
     fn health(&self, _tier: Tier, agg: &Agg) -> Result<(), String> {
